@@ -117,6 +117,20 @@ def check_case(ctx, case):
         ctx.fail("%s|%s" % (clause, tag), jcase, "%s\ncondition: lambda %s: %s\ninputs: %r\n--- module ---\n%s" % (
             detail, ", ".join(lam_params), ctext, case["inputs"], text[text.index("ERR_INSTANCE ="):][:1800]))
 
+    # Domain: the condition must evaluate falsy WITHOUT raising when Python runs the real lambda. The oracle evaluates the
+    # condition text with its names as globals; in the real lambda they are parameters / closure cells, and CPython 3.12
+    # has a scoping quirk there (a parameter that is also the target of an inlined nested comprehension becomes a cell
+    # that a generator expression reads too early: NameError "cannot access free variable"). If the exception comes
+    # straight out of the condition's own code - no frame of the message builder in between - the case is outside C07.
+    if isinstance(exc, NameError) and "cannot access free variable" in str(exc):
+        frames = []
+        tb = exc.__traceback__
+        while tb is not None:
+            frames.append(tb.tb_frame.f_code.co_filename)
+            tb = tb.tb_next
+        if frames and frames[-1] == path and not any(f.endswith(("_represent.py", "_recompute.py")) for f in frames):
+            ctx.count("skipped:condition_raises_in_the_real_lambda(CPython 3.12 comprehension scoping)")
+            return
     # (a) the configured error
     if errform == "default":
         ok = type(exc) is icontract.ViolationError
